@@ -148,8 +148,7 @@ private theorem rndLower_bit (a b : BitVec 64) (i : Nat) : (Gen.uu_rndLower a b)
   grind
 
 /-- version bits of a random ID -/
-theorem rnd_version_bv (a b lo : BitVec 64) : Gen.uu_version (Gen.uu_rndHigher a b) lo = 4#64 := by
-  simp only [Gen.uu_version]
+theorem rnd_version_bv (a b : BitVec 64) : (Gen.uu_rndHigher a b >>> 12) &&& 15#64 = 4#64 := by
   rw [version_bits]
   simp only [rndHigher_bit]
   grind
